@@ -10,6 +10,7 @@ import itertools
 import numpy as np
 
 from fsic.core import VectorContainer
+from fsic.extensions import AliasMixin
 import fsic
 
 from .. import spans
@@ -30,6 +31,11 @@ ASSUMPTIONS = [
 _MODEL = fsic.build_model(fsic.parse_model('Y = X'))
 
 
+class _ALIASED(AliasMixin, _MODEL):
+    # alias names and alias targets that are also period labels of the 'list_names' span
+    ALIASES = {'GDP': 'Y', 'cap': 'K', 'out': 'GDP'}
+
+
 def make(kind, n, obj):
     span, labels = spans.make(kind, n)
     if obj == 'container':
@@ -37,7 +43,7 @@ def make(kind, n, obj):
         c.add_variable('Y', [1.5 + i for i in range(n)])
         c.add_variable('K', [10 * (i + 1) for i in range(n)])
     else:
-        c = _MODEL(span, Y=[1.5 + i for i in range(n)])
+        c = (_MODEL if obj == 'model' else _ALIASED)(span, Y=[1.5 + i for i in range(n)])
         c.add_variable('K', [10 * (i + 1) for i in range(n)], dtype=int)
     return c, labels
 
@@ -55,7 +61,7 @@ def blocks(tier, seed):
     out = []
     for kind in spans.SPAN_TYPES:
         for n in range(1, min(top, spans.MAX_LEN.get(kind, top)) + 1):
-            for obj in ('container', 'model'):
+            for obj in ('container', 'model', 'aliased'):
                 out.append({'span': kind, 'n': n, 'obj': obj})
     return out
 
@@ -85,20 +91,28 @@ def run_label_case(case):
         elif isinstance(got, Exception) or not same(got, before['Y'][i]):
             out.append(('label:get', float(before['Y'][i]), repr(got)[:80], 'label read returned the wrong element'))
     else:
-        try:
-            c['K', label] = -7
-            exc = None
-        except Exception as e:
-            exc = e
-        after = snap(c)
-        if i == 'absent':
-            if not isinstance(exc, KeyError) or any(not same(after[k], before[k]) for k in before):
-                out.append(('absent-label:set', 'KeyError, nothing changed', repr(exc)[:80], 'absent label on write'))
-        else:
-            want = before['K'].copy()
-            want[i] = -7
-            if exc is not None or not same(after['K'], want) or not same(after['Y'], before['Y']):
-                out.append(('label:set', want.tolist(), after['K'].tolist() if exc is None else repr(exc)[:80], 'label write changed the wrong cells'))
+        # every variable of the object can be written by label: the model's own status / iterations series included
+        for var in c.index:
+            c, labels = make(kind, n, obj)
+            before = snap(c)
+            value = {'U': 'Q', 'i': -7, 'f': -7.5, 'b': True}.get(c[var].dtype.kind, -7)
+            try:
+                c[var, label] = value
+                exc = None
+            except Exception as e:
+                exc = e
+            after = snap(c)
+            if i == 'absent':
+                if not isinstance(exc, KeyError) or any(not same(after[k], before[k]) for k in before):
+                    out.append(('absent-label:set', 'KeyError, nothing changed', repr(exc)[:80], 'absent label on write'))
+            else:
+                want = before[var].copy()
+                want[i] = value
+                if exc is not None or any(not same(after[k], want if k == var else before[k]) for k in before):
+                    out.append(('label:set' + ('' if var in ('Y', 'K') else ':tracking-variable'), want.tolist(), after[var].tolist() if exc is None else repr(exc)[:80],
+                                'label write to %r changed the wrong cells' % var))
+            if out:
+                break
     return out
 
 
@@ -127,21 +141,26 @@ def run_slice_case(case):
             if isinstance(got, Exception) or not same(got, want):
                 out.append(('slice:get', want.tolist(), repr(got)[:100], 'label slice read the wrong positions'))
     else:
-        try:
-            c['K', sl] = -9
-            exc = None
-        except Exception as e:
-            exc = e
-        after = snap(c)
-        if has_absent:
-            if not isinstance(exc, KeyError) or any(not same(after[k], before[k]) for k in before):
-                out.append(('absent-label:slice-set', 'KeyError, nothing changed', repr(exc)[:80], 'absent slice bound on write'))
-        else:
-            want = before['K'].copy()
-            if pa <= pb:
-                want[pa:pb + 1:step] = -9
-            if exc is not None or not same(after['K'], want) or not same(after['Y'], before['Y']):
-                out.append(('slice:set', want.tolist(), after['K'].tolist() if exc is None else repr(exc)[:80], 'label slice wrote the wrong positions'))
+        for var in ['K'] + (['iterations'] if obj != 'container' else []):
+            c, labels = make(kind, n, obj)
+            before = snap(c)
+            try:
+                c[var, sl] = -9
+                exc = None
+            except Exception as e:
+                exc = e
+            after = snap(c)
+            if has_absent:
+                if not isinstance(exc, KeyError) or any(not same(after[k], before[k]) for k in before):
+                    out.append(('absent-label:slice-set', 'KeyError, nothing changed', repr(exc)[:80], 'absent slice bound on write'))
+            else:
+                want = before[var].copy()
+                if pa <= pb:
+                    want[pa:pb + 1:step] = -9
+                if exc is not None or any(not same(after[k], want if k == var else before[k]) for k in before):
+                    out.append(('slice:set' + ('' if var == 'K' else ':tracking-variable'), want.tolist(), after[var].tolist() if exc is None else repr(exc)[:80], 'label slice wrote the wrong positions of %r' % var))
+            if out:
+                break
     return out
 
 
